@@ -187,7 +187,8 @@ Definition mismatches (l : list case) : list nat := mism_idx agree l.
    4 invalid address: an accessor returns something else than the documented empty value
    5 a call panicked
    6 getListenAddress / GlobalBind: neither an error nor a usable host:port consistent with the documented rules
-   7 getWSHostPort: neither an error nor host:port with the expected host and an in-range port (port+1 without wrap, or the URL's) *)
+   7 getWSHostPort: neither an error nor host:port with the expected host and an in-range port (port+1 without wrap, or the URL's)
+   8 valid address: IsHostname(), Resolve(), NetworkAddressResolved() or Public() disagree with Host() / Port() *)
 
 Definition eqh (x : bytes) (hex : string) : bool := opt_bytes_eqb (Some x) (unhex hex).
 Definition unhex_or_nil (h : string) : bytes := match unhex h with Some x => x | None => [] end.
@@ -213,7 +214,19 @@ Definition check_addr (a : bytes) (o : addr_obs) : list nat :=
     let ty := unhex_or_nil (o_type o) in
     clause 2 ((bytes_eqb ty t_tcp || bytes_eqb ty t_tls || bytes_eqb ty t_local) &&
               bytes_eqb (ty ++ sep ++ unhex_or_nil (o_na o)) a) ++
-    clause 3 (eqh (join_host_port (unhex_or_nil (o_host o)) (unhex_or_nil (o_port o))) (o_na o))
+    clause 3 (eqh (join_host_port (unhex_or_nil (o_host o)) (unhex_or_nil (o_port o))) (o_na o)) ++
+    (* the remaining predicates, from the observed Host() and Port() alone: a host name is a
+       non-empty host that is no IP literal; Resolve() is the IP literal itself, the stub
+       resolver's first answer for a host name, "" otherwise; the resolved address joins it with
+       the port; Public() is "not one of the private prefixes" of the resolved address *)
+    (let h := unhex_or_nil (o_host o) in
+     let ip := parse_ip_ok h in
+     let rs := if is_nil h then [] else if ip then h
+               else match stub_lookup h with Some (x :: _) => x | _ => [] end in
+     clause 8 (Bool.eqb (o_ishost o) (negb (is_nil h) && negb ip) &&
+               eqh rs (o_resolve o) &&
+               eqh (join_host_port (unhex_or_nil (o_resolve o)) (unhex_or_nil (o_port o))) (o_resolved o) &&
+               Bool.eqb (o_public o) (negb (private_re (unhex_or_nil (o_resolved o))))))
   else
     clause 4 (eqh t_wrong (o_type o) && eqh [] (o_na o) && eqh [] (o_host o) && eqh [] (o_port o) &&
               eqh [] (o_resolve o) && eqh [] (o_resolved o) && negb (o_public o) && negb (o_ishost o)).
